@@ -315,5 +315,11 @@ pub fn run(cases_path: &str, out_path: &str, tier: &str, seed: u64) {
             }
         }
     }
+    // every signature value a key can produce verifies (short MPIs included)
+    let sweep_algs: Vec<(&str, bool, Alg, HashAlgorithm)> = vec![("rsa2048 v4", false, Alg::Rsa2048, HashAlgorithm::Sha256), ("ecdsa-p256 v4", false, Alg::EcdsaP256, HashAlgorithm::Sha256),
+        ("ecdsa-p384 v4", false, Alg::EcdsaP384, HashAlgorithm::Sha384), ("ecdsa-p521 v6", true, Alg::EcdsaP521, HashAlgorithm::Sha512), ("ecdsa-k256 v4", false, Alg::EcdsaK256, HashAlgorithm::Sha256),
+        ("ed25519legacy v4", false, Alg::Ed25519Legacy, HashAlgorithm::Sha256), ("dsa2048 v4", false, Alg::Dsa2048, HashAlgorithm::Sha256), ("rsa2048 v6", true, Alg::Rsa2048, HashAlgorithm::Sha512)];
+    let swept = sign_value_sweep(&sink, "c06.sign_value_sweep", seed ^ 0xC06, &sweep_algs, if thorough { 6000 } else { 1500 });
+    nontrivial.fetch_add(swept, std::sync::atomic::Ordering::Relaxed);
     sink.finish(json!({"texts": texts.len(), "pairs": pairs.len(), "nontrivial": nontrivial.load(std::sync::atomic::Ordering::Relaxed)}));
 }
